@@ -130,6 +130,7 @@ def jv_to_py(Z, mv, depth=0):
 
 JSON_POOL = [
     None, True, False, 0, 1, -1, 2, 10 ** 400, 1.0, 1.5, -0.0, float("inf"), float("-inf"), float("nan"), 1e308,
+    1e-18, 2.5e-16, 0.12345678901234568, 123456789.12345679, 5e-324, "1e-18", 2 ** 53 + 1, -(2 ** 63),
     "", "a", "1", "4", "1.5", "-3", "inf", "-inf", "nan", "Infinity", "1e400", " 7 ", "1_0", "true", "True", "TRUE", "false",
     "None", "none", 'a"b', "a\\", "a\nb", "a'b", "{x}", "2020-01-01", "2020-01-01T00:00:00Z", "20200101", "2020-W01",
     "07EF8B4D-AA09-4FFA-898D-C710796AFF41", "07ef8b4d-aa09-4ffa-898d-c710796aff41", "{07ef8b4d-aa09-4ffa-898d-c710796aff41}",
